@@ -163,6 +163,41 @@ func vc29Checksum(s uint8) string {
 	return vc29ChecksumMemo[s]
 }
 
+// vc29StepMutex is the sequential specification of a mutex/bool fragment: a
+// column holds at most one row, the row of the last write.
+func vc29StepMutex(state, input, output interface{}) (bool, interface{}) {
+	s := state.(uint8)
+	op := input.(vc29Op)
+	out := output.(vc29Out)
+	colMask := func(c uint64) uint8 { return vc29Bit(0, c) | vc29Bit(1, c) }
+	switch op.Kind {
+	case "setBit":
+		b := vc29Bit(op.Row, op.Col)
+		return out.Changed == (s&b == 0), (s &^ colMask(op.Col)) | b
+	case "import":
+		ns := s
+		for c := uint64(0); c < vc29Cols; c++ {
+			// entries are sent row 0 first, then row 1: the last entry of a column wins
+			switch {
+			case op.Mask&vc29Bit(1, c) != 0:
+				ns = (ns &^ colMask(c)) | vc29Bit(1, c)
+			case op.Mask&vc29Bit(0, c) != 0:
+				ns = (ns &^ colMask(c)) | vc29Bit(0, c)
+			}
+		}
+		return true, ns
+	}
+	return vc29Step(state, input, output)
+}
+
+func vc29ModelFor(ftype string) porcupine.Model {
+	m := vc29Model
+	if ftype == FieldTypeMutex || ftype == FieldTypeBool {
+		m.Step = vc29StepMutex
+	}
+	return m
+}
+
 var vc29Model = porcupine.Model{
 	Init:  func() interface{} { return uint8(0) },
 	Step:  vc29Step,
@@ -193,9 +228,17 @@ func vc29WorkDir() string {
 	return d
 }
 
-func vc29OpenFragment(path string, shard uint64, maxOpN int, q chan *fragment) (*fragment, error) {
+func vc29OpenFragment(path string, shard uint64, maxOpN int, q chan *fragment, ftype ...string) (*fragment, error) {
 	f := newFragment(path, "i", "f", viewStandard, shard, 0)
 	f.CacheType = CacheTypeRanked
+	if len(ftype) > 0 {
+		switch ftype[0] {
+		case FieldTypeMutex:
+			f.mutexVector = newRowsVector(f)
+		case FieldTypeBool:
+			f.mutexVector = newBoolVector(f)
+		}
+	}
 	f.RowAttrStore = newNopAttrStore("")
 	f.snapshotQueue = q
 	f.Logger = logger.NopLogger
@@ -383,6 +426,7 @@ func TestVerifC29_Fragment(t *testing.T) {
 		procs := rapid.SampledFrom([]int{1, 2, 4, 16}).Draw(t, "gomaxprocs")
 		maxOpN := rapid.SampledFrom([]int{2, 5, 20, 0}).Draw(t, "maxOpN")
 		nFrags := rapid.IntRange(1, 2).Draw(t, "fragments")
+		ftype := rapid.SampledFrom([]string{FieldTypeSet, FieldTypeSet, FieldTypeMutex, FieldTypeBool}).Draw(t, "fragmentType")
 		type clientOp struct {
 			frag int
 			op   vc29Op
@@ -391,11 +435,23 @@ func TestVerifC29_Fragment(t *testing.T) {
 		for c := range plans {
 			n := rapid.IntRange(10, 40).Draw(t, "nOps")
 			for i := 0; i < n; i++ {
-				plans[c] = append(plans[c], clientOp{rapid.IntRange(0, nFrags-1).Draw(t, "frag"), vc29GenOp(t)})
+				op := vc29GenOp(t)
+				if ftype != FieldTypeSet {
+					// roaring imports and row stores are refused for mutex/bool fields by the API
+					switch op.Kind {
+					case "roaring":
+						op.Kind = "import"
+					case "roaringClear":
+						op.Kind = "importClear"
+					case "setRow":
+						op.Kind = "setBit"
+					}
+				}
+				plans[c] = append(plans[c], clientOp{rapid.IntRange(0, nFrags-1).Draw(t, "frag"), op})
 			}
 		}
 		var key strings.Builder
-		fmt.Fprintf(&key, "p%d m%d f%d", procs, maxOpN, nFrags)
+		fmt.Fprintf(&key, "p%d m%d f%d %s", procs, maxOpN, nFrags, ftype)
 		for c := range plans {
 			fmt.Fprintf(&key, "|")
 			for _, co := range plans[c] {
@@ -415,7 +471,7 @@ func TestVerifC29_Fragment(t *testing.T) {
 		defer os.RemoveAll(dir)
 		frags := make([]*fragment, nFrags)
 		for i := range frags {
-			f, err := vc29OpenFragment(filepath.Join(dir, fmt.Sprint(i)), uint64(i), maxOpN, q)
+			f, err := vc29OpenFragment(filepath.Join(dir, fmt.Sprint(i)), uint64(i), maxOpN, q, ftype)
 			if err != nil {
 				t.Fatalf("open fragment: %v", err)
 			}
@@ -467,7 +523,7 @@ func TestVerifC29_Fragment(t *testing.T) {
 		}
 		for c, err := range errs {
 			if err != nil {
-				t.Fatalf("client %d: operation failed: %v", c, err)
+				t.Fatalf("C29 violated: client %d: a valid operation on the %s fragment failed: %v", c, ftype, err)
 			}
 		}
 		nontrivial := false
@@ -489,6 +545,9 @@ func TestVerifC29_Fragment(t *testing.T) {
 				final |= out.Mask << (r * vc29Cols)
 				all = append(all, vc29Rec{Client: nClients, Op: op, Out: out, Call: call, Return: ret})
 			}
+			if ftype != FieldTypeSet && final&0xF&(final>>vc29Cols) != 0 {
+				t.Fatalf("C29 violated: %s fragment %d ends with a column that holds two rows: row 0 = %04b, row 1 = %04b\n%s", ftype, fi, final&0xF, final>>vc29Cols, vc29FormatHistory(all))
+			}
 			if vc29Overlap(all) {
 				nontrivial = true
 			}
@@ -496,9 +555,9 @@ func TestVerifC29_Fragment(t *testing.T) {
 			for i, r := range all {
 				ops[i] = porcupine.Operation{ClientId: r.Client, Input: r.Op, Call: r.Call, Output: r.Out, Return: r.Return}
 			}
-			switch res := porcupine.CheckOperationsTimeout(vc29Model, ops, 60*time.Second); res {
+			switch res := porcupine.CheckOperationsTimeout(vc29ModelFor(ftype), ops, 60*time.Second); res {
 			case porcupine.Illegal:
-				t.Fatalf("C29 violated: history of fragment %d is not linearizable (GOMAXPROCS=%d, MaxOpN=%d; [call,return] stamps from one atomic counter; the last two reads ran after all clients finished)\n%s", fi, procs, maxOpN, vc29FormatHistory(all))
+				t.Fatalf("C29 violated: history of %s fragment %d is not linearizable (GOMAXPROCS=%d, MaxOpN=%d; [call,return] stamps from one atomic counter; the last two reads ran after all clients finished)\n%s", ftype, fi, procs, maxOpN, vc29FormatHistory(all))
 			case porcupine.Unknown:
 				vkit.Count("porcupine_timeout", 1)
 			}
@@ -506,7 +565,7 @@ func TestVerifC29_Fragment(t *testing.T) {
 			if err := f.Close(); err != nil {
 				t.Fatalf("close fragment %d: %v", fi, err)
 			}
-			f2, err := vc29OpenFragment(f.path, f.shard, 0, nil)
+			f2, err := vc29OpenFragment(f.path, f.shard, 0, nil, ftype)
 			if err != nil {
 				t.Fatalf("C29 violated: fragment %d cannot be reopened after the workload: %v\n%s", fi, err, vc29FormatHistory(all))
 			}
@@ -523,7 +582,7 @@ func TestVerifC29_Fragment(t *testing.T) {
 				t.Fatalf("C29 violated: fragment %d holds %08b in memory after the workload but %08b after close and reopen\n%s", fi, final, disk, vc29FormatHistory(all))
 			}
 		}
-		cs.Class(fmt.Sprintf("clients:%d", nClients)).Class(fmt.Sprintf("gomaxprocs:%d", procs)).Class(fmt.Sprintf("fragments:%d", nFrags))
+		cs.Class(fmt.Sprintf("clients:%d", nClients)).Class(fmt.Sprintf("gomaxprocs:%d", procs)).Class(fmt.Sprintf("fragments:%d", nFrags)).Class("type:" + ftype)
 		cs.NT(nontrivial)
 		cs.Sample(map[string]interface{}{"clients": nClients, "gomaxprocs": procs, "maxOpN": maxOpN, "fragments": nFrags, "ops_client0": len(plans[0])})
 	})
